@@ -365,14 +365,14 @@ def over(x, bound):
     return not (x <= bound)
 
 
-def predicate_members(case, res, tol_direct=1e-8, tol_krylov=2e-4, skip=(), full_pass=True):
+def predicate_members(case, res, tol_direct=1e-8, tol_krylov=2e-4, skip=(), full_pass=True, strict=False):
     """the predicate on the whole batch (shapes) and then MEMBER BY MEMBER, each member relative to its own scale
     (a batch may mix members of very different scale or conditioning); `skip` = member indices not to be judged"""
     A = opbuild.dense(res.get("eff_expr", case["expr"]), F64)
     if A.dim() == 2 or res["kind"] != "ok":
-        return predicate(case, res, tol_direct, tol_krylov)
+        return predicate(case, res, tol_direct, tol_krylov, strict)
     if full_pass:
-        w = predicate(case, res, tol_direct, tol_krylov)
+        w = predicate(case, res, tol_direct, tol_krylov, strict)
         if w:
             return w
     n, bs = A.shape[-1], list(A.shape[:-2])
@@ -395,13 +395,13 @@ def predicate_members(case, res, tol_direct=1e-8, tol_krylov=2e-4, skip=(), full
             continue
         sub = {"cls": "Dense", "t": tolist(Af[i])}
         w = predicate(dict(case, expr=sub), dict(res, out={k: (None if v is None else tolist(v[i])) for k, v in outs.items()}, eff_expr=sub),
-                      tol_direct, tol_krylov)
+                      tol_direct, tol_krylov, strict)
         if w:
             return "batch member %d: %s" % (i, w)
     return None
 
 
-def predicate(case, res, tol_direct=1e-8, tol_krylov=2e-4):
+def predicate(case, res, tol_direct=1e-8, tol_krylov=2e-4, strict=False):
     """None if the observed result satisfies C06 for this query, else a short description.
     Only meaningful for kind == ok.  Direct methods: relative tolerance tol_direct; a Krylov-based path (any lanczos
     event, or method pivoted_cholesky / lanczos) is exact only up to the documented tridiagonal jitter and only when the
@@ -415,6 +415,10 @@ def predicate(case, res, tol_direct=1e-8, tol_krylov=2e-4):
     full_rank = all(e[2] >= e[1] for e in res["events"] if e[0] == "lanczos")
     if case.get("method") == "pivoted_cholesky":
         full_rank = int(case.get("mrs", 100)) >= n
+    if strict:
+        # judge a Krylov-truncated result as if it had to be exact (used when the MODEL says the requested route is a
+        # direct one): Lanczos accuracy is allowed, a rank-deficient root is not
+        full_rank = True
     tol = tol_krylov if krylov else tol_direct
     out = {k: (None if v is None else totensor(v)) for k, v in res["out"].items()}
     eye = torch.eye(n, dtype=F64)
